@@ -988,8 +988,53 @@ class ExprMixin:
                 guards.append(to_z3(truth(self.ev1(cond, st, fr2))))
         body = to_z3(truth(self.ev1(node.elt, st, fr2)))
         if universal:
-            return z3.ForAll(bound, z3.Implies(z3.And(*guards), body))
+            full = z3.Implies(z3.And(*guards), body)
+            pats = _select_patterns(full, bound) if len(bound) == 1 and _has_lambda(full) else []
+            if pats:
+                # bodies that contain lambda terms (gathered / sliced arrays) defeat z3's pattern inference and MBQI:
+                # instantiate on every plain array cell indexed by the bound variable
+                try:
+                    return z3.ForAll(bound, full, patterns=pats)
+                except z3.Z3Exception:
+                    pass
+            return z3.ForAll(bound, full)
         return z3.Exists(bound, z3.And(*(guards + [body])))
+
+
+def _has_lambda(t, seen=None):
+    seen = set() if seen is None else seen
+    if t.get_id() in seen:
+        return False
+    seen.add(t.get_id())
+    if z3.is_quantifier(t):
+        return t.is_lambda() or _has_lambda(t.body(), seen)
+    return any(_has_lambda(c, seen) for c in t.children())
+
+
+def _select_patterns(t, bound):
+    """instantiation patterns A[k] for the arrays that are read at the bound index only.  An array that is also read at k+1
+    or at a computed index (rev[k+1], rev[rev[k]]) is not used: each instance would create a new matching term (a matching
+    loop).  Falls back to z3's own inference when no such array exists."""
+    v = bound[0]
+    good, bad, seen = {}, set(), set()
+
+    def walk(x):
+        if x.get_id() in seen:
+            return
+        seen.add(x.get_id())
+        if z3.is_quantifier(x):
+            walk(x.body())
+            return
+        if z3.is_select(x) and x.num_args() == 2 and z3.is_const(x.arg(0)) and x.arg(0).decl().kind() == z3.Z3_OP_UNINTERPRETED:
+            name = x.arg(0).decl().name()
+            if x.arg(1).eq(v):
+                good.setdefault(name, x)
+            else:
+                bad.add(name)
+        for c in x.children():
+            walk(c)
+    walk(t)
+    return [x for n, x in good.items() if n not in bad][:6]
 
 
 import itertools
